@@ -230,8 +230,75 @@ func serveScenario(k0, k1 string) *mc.Scenario {
 	}
 }
 
+// registerScenario: two threads register routes that carry route middleware, on a router with
+// nGlobal router-wide middleware (spare capacity in the shared list at 3, 5, 6); one goes through
+// Handle (writer lock held), the other through the lock-free NewRoute followed by HandleRoute.
+func registerScenario(nGlobal int) *mc.Scenario {
+	return &mc.Scenario{
+		Name:     fmt.Sprintf("registering routes with middleware, %d global middleware", nGlobal),
+		Describe: "Handle(/x0, WithMiddleware(m0)) || NewRoute(/x1, WithMiddleware(m1)) + HandleRoute; scheduling points at the hooks inside NewRoute; afterwards each route must run the global middleware, its own middleware and its own handler",
+		Build: func() *mc.Instance {
+			var trace []string
+			mw := func(id string) fox.MiddlewareFunc {
+				return func(n fox.HandlerFunc) fox.HandlerFunc {
+					return func(c fox.Context) { trace = append(trace, id); n(c) }
+				}
+			}
+			var opts []fox.GlobalOption
+			var want []string
+			for i := 0; i < nGlobal; i++ {
+				opts = append(opts, fox.WithMiddleware(mw(fmt.Sprintf("g%d", i))))
+				want = append(want, fmt.Sprintf("g%d", i))
+			}
+			f, err := fox.New(opts...)
+			if err != nil {
+				panic(err)
+			}
+			hd := func(id string) fox.HandlerFunc { return func(fox.Context) { trace = append(trace, id) } }
+			errs := make([]error, 2)
+			return &mc.Instance{
+				Bodies: []func(){
+					func() { _, errs[0] = f.Handle("GET", "/x0", hd("h0"), fox.WithMiddleware(mw("m0"))) },
+					func() {
+						rt, err := f.NewRoute("/x1", hd("h1"), fox.WithMiddleware(mw("m1")))
+						if err == nil {
+							err = f.HandleRoute("GET", rt)
+						}
+						errs[1] = err
+					},
+				},
+				Check: func(x *mc.Exec) (string, string, string) {
+					if x.S.Deadlock {
+						return "deadlock", "deadlock", x.S.DeadInfo
+					}
+					for t := 0; t < 2; t++ {
+						if pv, stk := x.S.PanicOf(t); pv != nil {
+							return "panic", "panic", fmt.Sprintf("thread %d: %v\n%s", t, pv, mc.NormStack(stk, 10))
+						}
+						if errs[t] != nil {
+							return "error", "write-lost", fmt.Sprintf("registration %d failed: %v", t, errs[t])
+						}
+					}
+					for i := 0; i < 2; i++ {
+						trace = nil
+						f.ServeHTTP(fx.NewRW(), fx.Req("GET", "", fmt.Sprintf("/x%d", i)))
+						w := strings.Join(append(append([]string{}, want...), fmt.Sprintf("m%d", i), fmt.Sprintf("h%d", i)), ",")
+						if got := strings.Join(trace, ","); got != w {
+							return "mixed", "route-mixes-registrations", fmt.Sprintf("GET /x%d ran [%s], want [%s]", i, got, w)
+						}
+					}
+					return "ok", "", ""
+				},
+			}
+		},
+	}
+}
+
 func serveScenarios() []*mc.Scenario {
 	var out []*mc.Scenario
+	for _, n := range []int{0, 3, 5, 6} {
+		out = append(out, registerScenario(n))
+	}
 	for i, a := range serveKinds {
 		for _, b := range serveKinds[i:] {
 			out = append(out, serveScenario(a, b))
